@@ -402,6 +402,9 @@ def execute(case: dict, cancel_budget: int = 0, tick_budget: int = 0, tick_sizes
     sched = SfSched(schedule, cancel_budget=cancel_budget, tick_budget=tick_budget, tick_sizes=tick_sizes)
     sched.log = run.events.append
     spawned = {int(c_): int(p_) for c_, p_ in (case.get("spawned") or {}).items()}
+    ctl = {int(c_): int(m_) for c_, m_ in (case.get("ctl") or {}).items()}
+    if ctl and ("early_ttl" in case):
+        raise HarnessError("C07 case: per-caller disabled commands together with a reachable early_ttl are not scripted")
     # (also for stacks: the inner layer is reached one loop iteration after the caller's step at the outer layer)
     sched.split_bursts = ("early_ttl" in case and EARLY[variant] and not GATED[variant]) or variant in STACKS
     _CURRENT[0] = sched
@@ -475,6 +478,14 @@ def execute(case: dict, cancel_budget: int = 0, tick_budget: int = 0, tick_sizes
             async def go():
                 SCRIPT.set((cid, n, kind, val))
                 run.events.append(("call", cid, key_id(variant, k, arg), arg))
+                mask = ctl.get(cid, 0)
+                if mask and cache is not None:
+                    # the caller's CONTEXT has single commands disabled (1: get, 2: set, 3: both) - a partial disable, what
+                    # `Cache-Control: no-cache / no-store` turn into; not the full disable
+                    from cashews.commands import Command
+                    cmds = [c_ for bit, c_ in ((1, Command.GET), (2, Command.SET)) if mask & bit]
+                    with cache.disabling(*cmds):
+                        return await f(k, arg, cid % 2 == 0)
                 return await f(k, arg, cid % 2 == 0)
             return go
 
